@@ -16,8 +16,9 @@ RULE = ('Histories as in C01 with a profile rich in option/command comments '
         'commit event) is (1) run on a FRESH Bert-E instance and on the '
         'long-lived one from the same snapshot and outcomes compared (job '
         'status, refs, tags, PR states, full comment lists), then (2) '
-        'delivered three times in a row on the long-lived instance: the '
-        'third delivery may change no ref, PR or comment. After every job: '
+        'delivered four times in a row on the long-lived instance (the '
+        'evaluation, "at most two more", and a further one): the fourth '
+        'delivery may change no ref, PR or comment. After every job: '
         'no PR has two adjacent identical robot comments; each command '
         'handler (wrapped in the Reactor registry) ran at most as many times '
         'as such command comments were ever posted on that PR. Non-trivial = '
@@ -99,6 +100,36 @@ def body_factory(known):
                           'b': {'op': 'pr_event', 'pr': y}, 'fresh_b': True},
                          {'op': 'pr_event', 'pr': y}]
                 hist.flags.add('c10_option_state_probe')
+            elif prs and data.draw(st.integers(0, 7), label='adm') == 0:
+                # settings-state probe: a pull request authored by an admin
+                # is evaluated (for its own PR the admin is an ordinary
+                # author), then a PR of somebody else on which the same admin
+                # set a privileged option is evaluated on the long-lived and
+                # on a fresh instance
+                from vf.sim.world import ADMIN
+                from vf.sim.driver import is_dest
+                x = prs[data.draw(st.integers(0, len(prs) - 1), label='ax')]
+                dests = sorted(n_ for n_ in hist.world.heads()
+                               if is_dest(n_))
+                opt = ('bypass_peer_approval', 'bypass_author_approval',
+                       'bypass_build_status', 'bypass_jira_check')[
+                    data.draw(st.integers(0, 3), label='aopt')]
+                if dests and hist.world.prs[x]['author'] != ADMIN:
+                    pid_ = max(p_[0] for p_ in hist.world.all_prs()) + 1
+                    steps = [
+                        {'op': 'comment', 'pr': x, 'user': ADMIN,
+                         'text': '@robot ' + opt},
+                        {'op': 'pr_event', 'pr': x},
+                        {'op': 'open_pr', 'author': ADMIN, 'base_back': 0,
+                         'src': 'bugfix/TEST-%d-adm' % (60 + len(hist.steps)),
+                         'dst': dests[data.draw(st.integers(
+                             0, len(dests) - 1), label='adst')]},
+                        {'op': 'pr_event', 'pr': pid_},
+                        {'op': 'twin', 'tag': 'C10',
+                         'a': {'op': 'pr_event', 'pr': x},
+                         'b': {'op': 'pr_event', 'pr': x}, 'fresh_b': True},
+                        {'op': 'pr_event', 'pr': x}]
+                    hist.flags.add('c10_admin_author_probe')
             for step in steps:
                 probe = step['op'] in ('pr_event', 'commit_event') and \
                     probes < 5 and data.draw(st.integers(0, 2),
